@@ -32,8 +32,14 @@ def gen_cases(tier, seed):
     n = 24 if tier == "quick" else 250
     cases = []
     for i in range(n):
-        wk = rnd.choice(["chain2", "mvchain2", "mvchain2", "fanin2", "chain2", "bchain2", "bchain3", "bchain3", "chain3"])
-        d = gs.gen_spec(rnd, wk, levels=2, size_class=rnd.choice(["tight", "tight", "generous"]), costs=rnd.choice(["tradeoff", "tradeoff", "random"]))
+        wk = rnd.choice(["chain2", "mvchain2", "mvchain2", "fanin2", "chain2", "bchain2", "bchain3", "bchain3", "chain3", "shrink"])
+        if wk == "shrink":
+            # the buffer fits the last Einsum's tensors but not the first one's (memory-tracking shortcuts must not
+            # drop a memory whose capacity binds for an earlier Einsum)
+            d = gs.shrinking_chain_spec(rnd, rnd.choice([2, 3]), costs=rnd.choice(["tradeoff", "random"]))
+            wk = "shrink" + str(len(d["workload"]["einsums"]))
+        else:
+            d = gs.gen_spec(rnd, wk, levels=2, size_class=rnd.choice(["tight", "tight", "generous"]), costs=rnd.choice(["tradeoff", "tradeoff", "random"]))
         if wk in ("chain2", "chain3"):
             for rv in d["workload"]["ranks"]:
                 d["workload"]["ranks"][rv] = rnd.choice([2, 3, 4] if wk == "chain2" else [2, 2, 3])
@@ -57,10 +63,12 @@ def gen_cases(tier, seed):
                 d["arch"]["size_class"] = "tight-opposed"
         if wk == "fanin2" and rnd.random() < 0.5:
             d["workload"]["einsums"].reverse()
-        if rnd.random() < 0.5 and not opposed:
+        if rnd.random() < 0.5 and not opposed and not wk.startswith("shrink"):
             d["mapper"]["max_fused_loops"] = rnd.choice([0, 1, 2])
         metrics = "ENERGY|LATENCY" if (i % 3 and not wk.startswith("bchain")) or (wk.startswith("bchain") and i % 3 == 0) \
             else "ENERGY|LATENCY|RESOURCE_USAGE"
+        if wk.startswith("shrink"):
+            metrics = rnd.choice(["ENERGY|LATENCY", "ENERGY", "ENERGY|LATENCY"])
         if opposed:
             metrics = rnd.choice(["ENERGY|RESOURCE_USAGE", "ENERGY|RESOURCE_USAGE", "ENERGY|LATENCY|RESOURCE_USAGE", "ENERGY"])
         cases.append({"class": wk + "/" + d["arch"]["size_class"], "desc": d, "metrics": metrics})
